@@ -72,6 +72,8 @@ def judge(ctx, cfg, traces):
     if not rej and "selftest_corrupted_trace_rejected" not in ctx.notes and traces[len(traces) // 2]["outcome"] == "ok":
         def corrupt(tr):
             tr["frames"][-1][0]["s"] += 1000      # credit the first hypothesis with one more unit of mass
+            if tr.get("support"):                  # only the transcripts are compared there: drop one of them
+                tr["frames"][-1] = tr["frames"][-1][1:] or [{"p": [1] * (cfg["T"] + 1), "s": 0, "l": 1000}]
             return tr
         ctx.selftest_corrupt("CtcDecoder_Trace", traces[len(traces) // 2], corrupt, constants=consts)
     for idx, prog in rej:
